@@ -75,8 +75,12 @@ SilentStop(o) ==
   /\ \A j \in 1..Len(o.pings) : o.pings[j].o = "m" => (Len(o.pings) = j /\ o.closed < 0)
   /\ o.userClose >= 0 => \A j \in 1..Len(o.pings) : o.pings[j].at <= o.userClose
 
-\* nothing is left behind: no goroutine, no activity after termination
+\* nothing is left behind: once the session has been closed (by keep-alive or by its
+\* owner) and everything runnable has run, the keep-alive loop is gone (o.kaAlive is the
+\* number of keep-alive loops alive at that point); after a long quiet period no goroutine
+\* remains and no ping was sent after the termination
 NoLeftovers(o) ==
+  /\ o.kaAlive = 0
   /\ o.left = 0
   /\ o.exit = "clean"
   /\ o.closed >= 0 => \A j \in 1..Len(o.pings) : o.pings[j].at <= o.closed
@@ -188,6 +192,7 @@ Terminal == LoopGone /\ (userAt >= 0 \/ closedAt >= 0)
 \* the observation a peer and the owner would make of the current state
 ObsOf == [T |-> thr0, I |-> Interval, start |-> 0, pings |-> hist,
           closed |-> closedAt, userClose |-> userAt,
+          kaAlive |-> (IF LoopGone THEN 0 ELSE 1),
           left |-> (IF LoopGone /\ ~tickerOn THEN 0 ELSE 1), exit |-> "clean"]
 
 TrailingFails(h) == LET S == {n \in 0..Len(h) : Run(h, Len(h), n)} IN MaxOf(S)
@@ -204,6 +209,10 @@ InvSilentStop == SilentStop(ObsOf)
 InvCounter == (pc = "select" /\ userAt < 0) => (cf = TrailingFails(hist) /\ cf < Norm(thr0))
 InvCompleteness == pc # "ping" => Completeness(ObsOf)
 InvFinal == Terminal => Holds(ObsOf)
+\* closing the session is the loop's last act; after the owner's Close the loop takes no
+\* further tick (it may still be inside the ping that was outstanding)
+InvGoneAtClose == closedAt >= 0 => LoopGone
+InvNoTickAfterUser == (userAt >= 0 /\ pc = "ping") => hist[Len(hist)].at < userAt
 \* a stopped ticker never fires again; once cancelled or stopped no ping is sent
 NoPingAfterStop == [][(~tickerOn \/ ctxDone) => k' = k]_vars
 \* every run ends with the loop gone and the ticker stopped
